@@ -550,12 +550,37 @@ def history_case(case_seed, res, prop="C09"):
                 present = (present if kind == "append" else []) + [(k.keyid, W.key_material(k.pub), version)]
             elif kind == "edit":
                 version += 1
+                how = rng.choice(["assign", "nested_a", "nested_b", "nested_c", "nested_d"])
+                op["how"] = how
                 for fmt in mds:
                     o = objs[fmt]
-                    if is_layout:
-                        o.readme = (o.readme or "") + "!"
+                    # a field is assigned anew, or a container below the top level is changed in place (nothing
+                    # tells the object that it changed): the signable bytes are those of the content as it is now
+                    if how == "assign":
+                        if is_layout:
+                            o.readme = (o.readme or "") + "!"
+                        else:
+                            o.command = list(o.command) + ["edited"]
+                    elif is_layout:
+                        if how == "nested_a" and o.steps:
+                            o.steps[-1].expected_command.append("e%d" % version)
+                        elif how == "nested_b" and o.inspect:
+                            o.inspect[0].run.append("e%d" % version)
+                        elif how == "nested_c":
+                            o.keys["%064x" % version] = {"keyid": "%064x" % version, "keytype": "ed25519", "scheme": "ed25519",
+                                                       "keyval": {"public": "%064x" % (version + 7)}}
+                        else:
+                            from in_toto.models.layout import Step
+                            o.steps.append(Step(name="added%d" % version))
                     else:
-                        o.command = list(o.command) + ["edited"]
+                        if how == "nested_a" and o.products:
+                            sorted(o.products.items())[0][1]["sha256"] = "%064x" % (version + 11)
+                        elif how == "nested_b":
+                            o.byproducts["edited"] = version
+                        elif how == "nested_c":
+                            o.materials["added%d" % version] = {"sha256": "%064x" % version}
+                        else:
+                            o.command.append("e%d" % version)
                 mds["dsse"].payload = Envelope.from_signable(objs["dsse"]).payload
                 op.pop("key")
             elif kind == "reload":
